@@ -41,9 +41,12 @@ GRID = [round(0.05 * i, 2) for i in range(0, 33) if (i % 10) != 0] + \
 
 
 def valid_response(rnd, gen):
-    host = rnd.choice(["192.168.1.%d" % rnd.randint(2, 250), "10.0.0.7", "at.local", ""])
+    host = rnd.choice(["192.168.1.%d" % rnd.randint(2, 250), "10.0.0.7", "at.local", "",
+                       # long ones: a fully qualified name, an IPv6 address written out
+                       "console-living-room.home.example.org",
+                       "fe80:0000:0000:0000:0202:b3ff:fe1e:8329"])
     serial = rnd.choice(["AA:BB:CC:%02X" % rnd.randint(0, 255), "C%d" % rnd.randint(1, 99), "",
-                         "séri€", "S 1 ", "S\n2"])
+                         "séri€", "S 1 ", "S\n2", "SN-" + "0123456789" * 5])
     aid = rnd.choice([str(rnd.randint(10000, 99999999)), "id-ü", ""])
     if gen == 4:
         return ",".join([host, serial, "AirTouch4", aid]).encode()
